@@ -27,6 +27,8 @@ from crosshair.statespace import context_statespace
 from crosshair.tracers import NoTracing, ResumedTracing, is_tracing
 from crosshair.util import CrossHairValue
 
+from vf.engine import rope
+
 SEEN = {'and': set(), 'or': set(), 'xor': set(), 'div': set()}
 STATS = {'bitops': 0, 'ratio': 0, 'percent': 0, 'hexint': 0, 'repr_cut': 0}
 
@@ -303,9 +305,8 @@ class DigitCP(SymbolicInt):
         self._vf_src, self._vf_pos, self._vf_n = src, pos, n
 
 
-def _sym_int_repr(self):
-    if self < 0:
-        return "-" + (-self).__repr__()
+def _digits_of(self):
+    """materialised decimal text of a non-negative symbolic int (forks on the digit count)"""
     n, thr = 1, 10
     while self >= thr:
         n += 1
@@ -318,6 +319,18 @@ def _sym_int_repr(self):
             cps.append(DigitCP(z3.IntVal(48) + d, self, k, n))
         STATS['digit_runs'] = STATS.get('digit_runs', 0) + 1
         return bl.LazyIntSymbolicStr(cps)
+
+
+def _sym_int_repr(self):
+    if self < 0:
+        return "-" + (-self).__repr__()
+    if USE_ROPES:
+        with NoTracing():
+            return rope.rope_of_int(self)
+    return _digits_of(self)
+
+
+USE_ROPES = True
 
 
 def _cp_list(s):
@@ -358,6 +371,10 @@ def _digit_source(val):
 
 
 def _lazy_str_eq(self, other):
+    with NoTracing():
+        other_is_rope = isinstance(other, rope.Rope)
+    if other_is_rope:
+        return other.__eq__(self)
     with NoTracing():
         a, b = _cp_list(self), _cp_list(other)
         plan = None
@@ -492,6 +509,13 @@ def _my_int(val=0, base=_MISSING):
             kind = 2
         elif hasattr(type(val), '__vf_int__'):
             kind = 3
+        elif isinstance(val, rope.Rope):
+            if base is _MISSING or (type(base) is int and base == 10):
+                x = val._single_int()
+                if x is not None:
+                    rope.STATS['int_of_rope'] += 1
+                    return x
+            kind = 4
         elif isinstance(val, bl.LazyIntSymbolicStr) and (base is _MISSING or (type(base) is int and base == 10)):
             src = _digit_source(val)
             if src is not None:
@@ -503,6 +527,8 @@ def _my_int(val=0, base=_MISSING):
         return val.__trunc__()
     if kind == 3:
         return val.__vf_int__()
+    if kind == 4:
+        val = val._materialise()
     if kind == 2:
         if base is not _MISSING and base == 16:
             data = val._vf_data
@@ -600,13 +626,13 @@ def _my_percent(self, other):
                 if isinstance(args, tuple) and len(args) == nconv:
                     ok = True
                     for a in args:
-                        if not (isinstance(a, (int, str, SymbolicInt, AnySymbolicStr))
+                        if not (isinstance(a, (int, str, SymbolicInt, AnySymbolicStr, rope.Rope))
                                 and not isinstance(a, bool)):
                             ok = False
                     # %d of a str must raise - leave that to CPython
                     convs = pieces[1::2]
                     for cv, a in zip(convs, args):
-                        if cv in 'di' and isinstance(a, (str, AnySymbolicStr)):
+                        if cv in 'di' and isinstance(a, (str, AnySymbolicStr, rope.Rope)):
                             ok = False
                     if ok:
                         plan = (pieces, args)
@@ -639,10 +665,69 @@ def _my_str(*a, **kw):
     if len(a) == 1 and not kw:
         with NoTracing():
             cut = isinstance(a[0], (BytesLike, HexOfBytes))
+            is_rope = isinstance(a[0], rope.Rope)
+        if is_rope:
+            return a[0]
         if cut:
             STATS['repr_cut'] += 1
             return '<str of symbolic bytes>'
     return str(*a, **kw)
+
+
+_STRUCT_SIZES = {'B': 1, 'b': 1, 'H': 2, 'h': 2, 'I': 4, 'i': 4, 'L': 4, 'l': 4, 'Q': 8, 'q': 8}
+
+
+def _my_struct_unpack(fmt, buffer):
+    # struct.unpack('!%dH' % n, buf) with symbolic count n: valid iff n * size == len(buf); decide that with
+    # one fork instead of realising n (256 values of a length octet)
+    import struct as _struct
+    with NoTracing():
+        plan = None
+        if isinstance(fmt, rope.Rope):
+            ps = fmt._parts
+            if len(ps) == 3 and isinstance(ps[0], str) and ps[0] in ('!', '>', '<', '=') and \
+                    isinstance(ps[1], rope.Int) and isinstance(ps[2], str) and ps[2] in _STRUCT_SIZES:
+                plan = (ps[0], ps[1].x, ps[2], _STRUCT_SIZES[ps[2]])
+    if plan is None:
+        with NoTracing():
+            whole = None
+            if type(fmt) is str and isinstance(buffer, BytesLike):
+                f = fmt[1:] if fmt[:1] in '!><=@' else fmt
+                if f.endswith('s') and f[:-1].isdigit():
+                    whole = int(f[:-1])
+        if whole is not None:
+            # '!Ns': the N octets themselves (CrossHair realises the buffer for 's')
+            if len(buffer) != whole:
+                raise _struct.error('unpack requires a buffer of %d bytes' % whole)
+            return (buffer,)
+        return _struct.unpack(fmt, buffer)
+    order, n, ch, size = plan
+    blen = len(buffer)
+    if n * size != blen:
+        raise _struct.error('unpack requires a buffer of %d bytes' % (0,))
+    STATS['struct_count'] = STATS.get('struct_count', 0) + 1
+    k = realize(blen) // size
+    return _struct.unpack(order + str(k) + ch, buffer)
+
+
+def _my_inet_ntop(family, data):
+    import socket as _socket
+    with NoTracing():
+        sym = isinstance(data, BytesLike)
+    if not sym:
+        return _socket.inet_ntop(family, data)
+    n = len(data)
+    if family == _socket.AF_INET:
+        if n != 4:
+            raise ValueError('invalid length of packed IP address string')
+        return '%s.%s.%s.%s' % (data[0], data[1], data[2], data[3])
+    if family == _socket.AF_INET6:
+        if n != 16:
+            raise ValueError('invalid length of packed IP address string')
+        with NoTracing():
+            STATS['inet6_lazy'] = STATS.get('inet6_lazy', 0) + 1
+            return rope.Rope([rope.Lazy(lambda: _socket.inet_ntop(family, bytes(deep_realize(data))))])
+    return _socket.inet_ntop(family, deep_realize(data))
 
 
 def _my_ord(c):
@@ -712,6 +797,14 @@ _LAYER = {
     ord: _my_ord,
     str: _my_str,
 }
+try:
+    import struct as _struct_mod
+    import socket as _socket_mod
+    _LAYER[_socket_mod.inet_ntop] = _my_inet_ntop
+    _LAYER[_struct_mod.unpack] = _my_struct_unpack
+except Exception:
+    pass
+
 
 _installed = False
 
@@ -749,6 +842,7 @@ def install():
         return _bytes_getitem(self, i)
     bl.SymbolicBytes.__getitem__ = _clamped_getitem
 
+    rope.MATERIALISE_INT = _digits_of
     SymbolicInt.__repr__ = _sym_int_repr
     _ORIG['str_eq'] = bl.LazyIntSymbolicStr.__eq__
     bl.LazyIntSymbolicStr.__eq__ = _lazy_str_eq
